@@ -13,6 +13,24 @@ T = {
     "C02": ("exploration", "differential against a reference DAG evaluator over generated call-DAGs (symbolic probes, call log, all call forms, listing orders, arg_combinations cuts)",
             "Held on the generated executions: value, call multiset, call order and full_output memo of pipeline(...)/run/func for every output and several keyword sets compared with an independent evaluator of the DAG description; listed argument combinations exercised; surplus/missing keywords must be rejected.",
             "Bounded by the generator (<=6 functions, <=3 roots); 'surplus keyword' is demanded to be rejected only when it names no parameter of any executed function (a keyword shadowed by a bound value carries no expectation).", "4/C02"),
+    "C03": ("exploration", "schedule exploration: controlled executor permuting start/completion order of each generation + real thread/process pools with injected delays; cross-process call log (exactly-once, happens-before) and denotation oracle",
+            "Held on the schedules produced: all permutations of small generations, sampled ones beyond, real pools with seeded delays, sync and async entry points, storage x executor matrix; each run checked against the denotation, exactly-once call accounting and happens-before of consumed values.",
+            "Schedules are explored by permutation of submission batches, delays and real pools, not all interleavings; timestamps from CLOCK_MONOTONIC across processes.", "4/C03"),
+    "C05": ("fault_enumeration", "crash injection at every recorded file-system event (incl. torn writes) and every user-call index, then resume and compare with the denotation; recompute monitor from the crashed process's fs trace",
+            "Exhaustive over the recorded crash points of each listed workload x storage (x mode in thorough): process death before every logical fs event, torn writes at 4 offsets per data event, a raise at every probe call, double crashes and crashes during the clean-up of an older run in thorough.",
+            "Process death = loss of userspace buffers (os._exit in a python-level interposer); no power-loss / write-reordering model; workloads are a fixed structural list, not generated.", "4/C05"),
+    "C12": ("fault_enumeration", "single-fault mutation operators on valid generated cases; monitors: exception raised, empty probe call log, byte snapshot of a cleanup=False run folder unchanged",
+            "Every operator of the property's list applied at every applicable position of each generated valid case; a fault that is accepted, lets user code run first, or alters the run folder is a violation.",
+            "'rejected' = any exception; run folder written by the file_array storage; operators listed in the evidence rule.", "4/C12"),
+    "C13": ("fault_enumeration", "failure injection at every (function, invocation) x exception type x execution mode; monitors on exception identity/notes, call log (no later generation), ErrorSnapshot API, loadability, bounded-progress watchdog",
+            "Every expected invocation (sampled to 12 per case) of generated pipelines made the single failing call under 6 map modes and 3 call forms; checks type/args/notes at the caller, no later-generation call, snapshot reproduce (also via file), completed results loadable, return within a watchdog.",
+            "'does not hang' restated as bounded progress (60 s, confirmed with 5x budget); snapshot clauses for in-process modes only; loadability on file_array.", "4/C13"),
+    "C18": ("exploration", "differential lazy vs eager twin vs reference evaluator; call log before/after evaluate(); recorded task graph compared with dependencies read off the deferred objects and with the reference DAG",
+            "Held on generated DAGs (diamonds, tuple-output interior nodes, bound values, intermediates supplied): zero calls before evaluate(), value equality, exactly-once after three evaluate() calls, task graph acyclic with exactly the producer/consumer edges.",
+            "Bounded by the generator (<=6 functions); deferred objects inspected through .func/.args/.kwargs/.evaluate().", "4/C18"),
+    "C20": ("exploration", "model-based differential on the Resources API (own arithmetic model) with icontract snapshot/ensure contracts on the real methods for the no-side-effect clause",
+            "Exhaustive grid of single specifications, all ordered pairs of a value core, sampled operand lists, update calls, invalid-combination grid and mutated memory/time strings, NestedPipeFunc maxima; contracts count their evaluations (zero = inconclusive).",
+            "Memory compared under decimal and binary unit conventions; only strings outside a permissive grammar must be rejected; see evidence assumptions.", "4/C20"),
 }
 
 NOT_BUILT_REASON = "check not built yet in this round (design in DESIGN.md section 4); not claimed until its monitor exists and is silent on the unchanged tree"
